@@ -104,13 +104,76 @@ def parse_tlc_stats(text):
     m = re.search(r"The depth of the complete state graph search is (\d+)", text)
     if m:
         st["depth"] = int(m.group(1))
+    # per-action coverage: TLC reports evaluation counts per expression location; every count is
+    # attributed to the definition (Step* / Op*) whose line range contains it
+    # "taken" = evaluations of the state-committing expressions (Commit/Done/...) inside it
     cov = {}
-    for mm in re.finditer(r"^<(\w+) line \d+, col \d+ to line \d+, col \d+ of module (\w+)>: (\d+):(\d+)", text, re.M):
-        cov[mm.group(1)] = [int(mm.group(3)), int(mm.group(4))]
-    st["coverage"] = cov
+    defs = spec_definitions()
+    starts = [d[0] for d in defs]
+    src = spec_lines()
+    import bisect
+    seen_loc = set()
+    for mm in re.finditer(r"^\s*\|*line (\d+), col (\d+) to line (\d+), col (\d+) of module CactusRef: (\d+)", text, re.M):
+        ln, c0, cnt = int(mm.group(1)), int(mm.group(2)), int(mm.group(5))
+        loc = (ln, c0, int(mm.group(3)), int(mm.group(4)))
+        if loc in seen_loc:
+            continue
+        seen_loc.add(loc)
+        i = bisect.bisect_right(starts, ln) - 1
+        if i < 0:
+            continue
+        name = defs[i][1]
+        cov.setdefault(name, [0])
+        # TLC reports the argument expressions of Commit(..)/Done(..), not the call itself: a
+        # location on a source line that contains the committing call counts as "taken"
+        frag = src[ln - 1] if ln - 1 < len(src) else ""
+        if re.search(r"\b(Commit|CommitHX|Done|DoClone|DoUpgrade)\(", frag):
+            cov[name][0] = max(cov[name][0], cnt)
+    st["coverage"] = {k: v for k, v in cov.items() if k.startswith(("Step", "Op"))}
     st["completed"] = "Model checking completed" in text
     st["errors"] = re.findall(r"^Error: (.*)$", text, re.M)[:5]
     return st
+
+
+_DEFS = None
+
+
+def spec_definitions():
+    """[(first line, name)] of the top-level definitions of CactusRef.tla, sorted by line."""
+    global _DEFS
+    if _DEFS is None:
+        _DEFS = []
+        for i, l in enumerate(open(os.path.join(SPEC, "CactusRef.tla")), 1):
+            m = re.match(r"^([A-Za-z_][A-Za-z0-9_]*)(\(.*\))?\s*==", l)
+            if m:
+                _DEFS.append((i, m.group(1)))
+    return _DEFS
+
+
+_SRC = None
+
+
+def spec_lines():
+    global _SRC
+    if _SRC is None:
+        _SRC = open(os.path.join(SPEC, "CactusRef.tla")).read().splitlines()
+    return _SRC
+
+
+# actions that must have been taken in a family's exhaustive run, or the property was not exercised
+REQUIRED_ACTIONS = {
+    "core": ["StepDrop", "StepOrphan", "StepBust", "StepMark", "StepRelease", "StepUninit", "StepPostValue", "OpAdopt", "OpUnadopt"],
+    "weak": ["StepMark", "OpUpgrade", "OpWeakDrop", "OpStoreWeak"],
+    "dtor10": ["StepValueScript", "StepMark"],
+    "dtor16": ["StepValueScript", "StepMark", "OpCloneStored"],
+    "dtor05": ["StepValueScript", "StepMark", "OpUpgradeStored"],
+    "panic": ["StepValuePanic", "StepUnwindSkip", "StepMark"],
+    "consume": ["OpTryUnwrap", "OpMakeMutX", "OpGetMut", "OpDecStrong", "OpDropDetached", "StepMark"],
+    "stale": ["StepMark", "OpTake", "OpDropStored"],
+    "elide": ["StepMark", "OpTake", "OpDropStored"],
+    "order": ["StepMark", "OpAdoptStore", "OpTakeUnadopt"],
+    "std": ["OpTryUnwrap", "OpMakeMutX", "StepUninit"],
+}
 
 
 def tlc_exhaustive(name, cfgtext, timeout, workers=8, use_cache=True):
@@ -472,6 +535,9 @@ def run_check(prop, tier, seed, replay):
                 st["cfg"] = dict(family=fam, nobj=c["nobj"], caps=c["caps"], ops=ops, menu=menu, variant=VARIANT,
                                  invariants=F["invs"])
                 spec_stats.append(st)
+                missing = [a for a in REQUIRED_ACTIONS.get(fam, []) if st.get("coverage", {}).get(a, [0])[0] == 0]
+                if missing and not st["cex"]:
+                    raise ToolError("vacuous exhaustive run for family %s: actions never taken: %s" % (fam, missing))
                 log("spec: %s nobj=%d caps=%s: %d states generated, %d distinct, depth %s%s" % (
                     fam, c["nobj"], c["caps"], st.get("generated", 0), st.get("distinct", 0), st.get("depth"),
                     " (cached)" if st["cached"] else " in %.0fs" % st["wall_s"]))
@@ -736,6 +802,8 @@ def run_check(prop, tier, seed, replay):
             drift=len(drift),
             known_finding_instances=sum(len(v) for v in known_hits.values()),
             child_process_runs=nchild,
+            programs=nscripts,
+            disagreements_checked=count_std_compared(traces) if P["level"] == "translation_validation" else 0,
             scale_runs=(scale_info or {}).get("runs"),
             library_crashes=len(crashes),
             rule="TLC model-checks each family's configuration exhaustively (all call histories within the caps, all iteration "
@@ -805,6 +873,17 @@ def run_scale(binp, wd, tier):
     runs = [g for g in lines if g["k"] == "scale"]
     log("scale: %d runs up to N=%d on a 128 KiB stack, %d outside the bounds" % (len(runs), max([g["n"] for g in runs] or [0]), len(bad)))
     return dict(runs=runs, bad=bad)
+
+
+def count_std_compared(traces):
+    """calls whose results were compared between cactusref, the real std::rc and StdRc.tla"""
+    n = 0
+    for t in traces:
+        with open(t["trace"]) as f:
+            for l in f:
+                if '"stdon":true' in l:
+                    n += 1
+    return n
 
 
 def max_obj(path):
